@@ -264,6 +264,16 @@ func CompactTypes(module *Module) {
 		}
 	}
 
+	// An expression may be typed by a type that nothing else references (the
+	// declared type of `let v: vec2<u32> = vec2<u32>(x)`): keep that typing as an
+	// inline value instead of losing it with the removed type.
+	for fi := range module.Functions {
+		inlineRemovedExpressionTypes(&module.Functions[fi], remap, module.Types)
+	}
+	for ei := range module.EntryPoints {
+		inlineRemovedExpressionTypes(&module.EntryPoints[ei].Function, remap, module.Types)
+	}
+
 	// Step 4: Remap all type handles throughout the module
 	module.Types = newTypes
 
@@ -319,6 +329,27 @@ func CompactTypes(module *Module) {
 			}
 		}
 		module.TypeUseOrder = filtered
+	}
+}
+
+// inlineRemovedExpressionTypes rewrites ExpressionTypes entries whose type
+// handle is about to be removed into value resolutions, for the handle-free
+// concrete types (scalar, vector, matrix).
+func inlineRemovedExpressionTypes(f *Function, remap []TypeHandle, oldTypes []Type) {
+	for ti := range f.ExpressionTypes {
+		tr := &f.ExpressionTypes[ti]
+		if tr.Handle == nil || int(*tr.Handle) >= len(remap) || remap[*tr.Handle] != ^TypeHandle(0) {
+			continue
+		}
+		inner := oldTypes[*tr.Handle].Inner
+		if IsAbstractType(inner, oldTypes) {
+			continue
+		}
+		switch inner.(type) {
+		case ScalarType, VectorType, MatrixType:
+			tr.Value = inner
+			tr.Handle = nil
+		}
 	}
 }
 
